@@ -454,6 +454,20 @@ func jsonFields(t *types.Struct) []jsonFieldInfo {
 					}
 				}
 				n, oe, oz, skip := jsonField(f, it.st.Tag(i))
+				if skip && f.Embedded() && !f.Exported() {
+					// an embedded struct of an unexported type that carries its own member name is a member
+					ft := f.Type()
+					if pp, ok := ft.Underlying().(*types.Pointer); ok {
+						ft = pp.Elem()
+					}
+					if _, isStruct := ft.Underlying().(*types.Struct); isStruct && tagName != "" {
+						n, skip = tagName, false
+						for _, o := range strings.Split(tag, ",")[1:] {
+							oe = oe || o == "omitempty"
+							oz = oz || o == "omitzero"
+						}
+					}
+				}
 				if skip {
 					continue
 				}
